@@ -270,6 +270,8 @@ def run_history(family: str, shape: str, hist: list[tuple], policy: Any = None) 
     finally:
         instrument.unpatch_all()
         W.close()
+        import gc
+        gc.collect()          # SQLite connections are closed by their finalisers: thousands of executions per process
 
 
 def seq_histories(rng: random.Random, quick: bool) -> list[tuple[str, list[tuple]]]:
@@ -348,7 +350,7 @@ def _job(job: dict[str, Any]) -> list[tuple[list[dict[str, Any]], dict[str, Any]
 
 def run_jobs(jobs: list[dict[str, Any]]) -> list[tuple[list[dict[str, Any]], dict[str, Any]]]:
     procs = min(len(jobs), max(1, (os.cpu_count() or 2) - 1))
-    with mp.get_context("fork").Pool(procs, maxtasksperchild=6) as pool:
+    with mp.get_context("fork").Pool(procs, maxtasksperchild=2) as pool:
         res = pool.map(_job, jobs, chunksize=1)
     return [x for r in res for x in r]
 
@@ -487,12 +489,12 @@ def run(ctx: Ctx) -> None:
             nsh = 4 if ctx.quick else 12
             for k in range(nsh):
                 jobs.append({"mode": "dfs", "family": fam, "shape": shape, "history": h, "shard": (k, nsh),
-                             "max_preemptions": 2 if ctx.quick else 3, "max_executions": 120 if ctx.quick else 3000})
-            ns = 12 if ctx.quick else 240
+                             "max_preemptions": 2 if ctx.quick else 3, "max_executions": 120 if ctx.quick else 250})
+            ns = 12 if ctx.quick else 96
             for k in range(0, ns, 6):
                 jobs.append({"mode": "seeds", "family": fam, "shape": shape, "history": h,
                              "seeds": [ctx.seed * 1000 + x for x in range(k, k + 6)]})
-        cases = gen_cron_cases(random.Random(ctx.seed + 5), 120 if ctx.quick else 3000)
+        cases = gen_cron_cases(random.Random(ctx.seed + 5), 120 if ctx.quick else 1000)
         for k in range(0, len(cases), 20):
             jobs.append({"mode": "cron", "family": fam, "cases": cases[k:k + 20]})
     results = run_jobs(jobs)
